@@ -47,6 +47,8 @@ Definition qsqrt (q : Q) : Q := fst (sqrt_bracket q).
 Definition qsqrt_hi (q : Q) : Q := snd (sqrt_bracket q).
 Definition qsqrt_exact (q : Q) : bool := qeqb (qsqrt q * qsqrt q) q.
 
+Fixpoint qpow (x : Q) (n : nat) : Q := match n with O => 1 | S k => x * qpow x k end.
+
 (* ------------------------------------------------------------------ closed forms over Q (normalised distance h >= 0) *)
 (* CovNugget.cpp:42   ABS(h) < 1.e-10 *)
 Definition cor_nugget (h : Q) : Q := if qltb (Qabs h) (1 # 10000000000) then 1 else 0.
@@ -91,7 +93,6 @@ Definition cor_gc5 (ndim : Z) (r h : Q) : Q :=
      else if Z.eqb ndim 2 then h4 * (h - 225 * gv_pi * r / 128) + r3 * (75 * gv_pi * h2 / 8 - 15 * gv_pi * r2)
      else h4 * (h - 6 * r) + r3 * (40 * h2 - 96 * r2)).
 (* CovCauchy.cpp:48 / CovGamma.cpp:50 for an integer third parameter n *)
-Fixpoint qpow (x : Q) (n : nat) : Q := match n with O => 1 | S k => x * qpow x k end.
 Definition cor_cauchy (n : nat) (h : Q) : Q := / qpow (1 + h * h) n.
 Definition cor_gamma (n : nat) (h : Q) : Q := / qpow (1 + h) n.
 (* CovPower.cpp:41 with exponent 1: a - h, the constant a = evalCov(0) is an oracle (gamma functions) *)
@@ -101,6 +102,64 @@ Definition cor_power1 (a h : Q) : Q := if qltb 0 h then a - h else a.
 Definition qi := (Q * Q)%type.           (* [lo, hi] *)
 Definition qi_pt (x : Q) : qi := (x, x).
 Definition qi_hull2 (a b : Q) : qi := (Qmin a b, Qmax a b).
+
+(* CovBesselJ.cpp:47  J_nu(h) Gamma(nu+1) / (h/2)^nu = sum_k (-1)^k y^k / (k! (nu+1)_k),  y = h^2/4  (nu > 0):
+   the Gamma factors cancel into the rational Pochhammer product, so the partial sums are exact in Q and only the
+   SQUARED distance is needed.  term (k+1) = term k * y / ((k+1)(nu+k+1)). *)
+Definition bessel_ratio_den (nu : Q) (k : Z) : Q := inject_Z (k + 1) * (nu + inject_Z k + 1).
+Fixpoint bessel_term (nu y : Q) (k : nat) : Q :=
+  match k with O => 1 | S j => bessel_term nu y j * y / bessel_ratio_den nu (Z.of_nat j) end.
+Definition alt_sign (k : nat) (t : Q) : Q := if Nat.even k then t else - t.
+Fixpoint bessel_sum (nu y : Q) (N : nat) : Q :=
+  match N with O => 1 | S j => bessel_sum nu y j + alt_sign (S j) (bessel_term nu y (S j)) end.
+Definition bessel_tiny : Q := 1 # (2 ^ 70).
+(* state: k, t = term k, s = partial sum up to k.  Stops when the terms are non-increasing from k on (y <= den k) and
+   term (k+1) <= 2^-70: every later partial sum then lies between s and s' (theorem C03_besselj_bracket) *)
+Fixpoint bessel_loop (fuel : nat) (nu y : Q) (k : nat) (t s : Q) : option qi :=
+  match fuel with
+  | O => None
+  | S f =>
+      let t' := Qred (t * y / bessel_ratio_den nu (Z.of_nat k)) in
+      let s' := Qred (s + alt_sign (S k) t') in
+      if qleb y (bessel_ratio_den nu (Z.of_nat k)) && qleb t' bessel_tiny then Some (qi_hull2 s s')
+      else bessel_loop f nu y (S k) t' s'
+  end.
+Definition bessel_enc (nu h2 : Q) : option qi :=
+  if qltb 0 nu && qleb 0 h2 then bessel_loop 2000 nu (Qred (h2 / 4)) 0 1 1 else None.
+
+(* ------------------------------------------------------------------ spectra on the sphere (Legendre coefficients) *)
+(* VH::normalize(sp, 1): division by the sum of the absolute values *)
+Fixpoint lsumabs (l : list Q) : Q := match l with [] => 0 | x :: r => Qabs x + lsumabs r end.
+Definition normalize1 (l : list Q) : list Q :=
+  let t := lsumabs l in if qltb 0 t then map (fun x => Qred (x / t)) l else l.
+(* CovGeometric.cpp:52  rho^k *)
+Definition spec_geometric (rho : Q) (n : nat) : list Q := map (fun k => qpow rho k) (seq 0 (S n)).
+(* CovPoisson.cpp:56   exp(-lambda) lambda^k / k!  (the factor exp(-lambda) cancels in the normalisation) *)
+Fixpoint qfact (k : nat) : Q := match k with O => 1 | S j => inject_Z (Z.of_nat (S j)) * qfact j end.
+Definition spec_poisson (lambda : Q) (n : nat) : list Q := map (fun k => qpow lambda k / qfact k) (seq 0 (S n)).
+(* CovLinearSph.cpp:52  sp[1] = 3/4, sp[k] = (2k+1)/(2k-3) ((k-2)/(k+1))^2 sp[k-2] for odd k, 0 for even k *)
+Fixpoint spec_linsph_odd (j : nat) : Q :=   (* coefficient of degree k = 2j+1 *)
+  match j with
+  | O => 3 # 4
+  | S i => let k := inject_Z (Z.of_nat (2 * (S i) + 1)) in
+           (2 * k + 1) / (2 * k - 3) * (((k - 2) / (k + 1)) * ((k - 2) / (k + 1))) * spec_linsph_odd i
+  end.
+Definition spec_linearsph (n : nat) : list Q :=
+  map (fun k => if Nat.even k then 0 else spec_linsph_odd (Nat.div2 k)) (seq 0 (S n)).
+(* CovMatern.cpp:171 for an integer parameter mu: (2k+1) / (1 + scale^2 k (k+1))^(mu+1)  (1/(4 pi) cancels) *)
+Definition spec_matern (mu : nat) (scale : Q) (n : nat) : list Q :=
+  map (fun k => let kq := inject_Z (Z.of_nat k) in (2 * kq + 1) / qpow (1 + scale * scale * kq * (kq + 1)) (S mu)) (seq 0 (S n)).
+Definition sphere_spectrum (type : Z) (param scale : Q) (n : nat) : option (list Q) :=
+  match type with
+  | 28%Z => Some (normalize1 (spec_geometric scale n))
+  | 29%Z => Some (normalize1 (spec_poisson param n))
+  | 30%Z => Some (normalize1 (spec_linearsph n))
+  | 7%Z => if Z.eqb (Zpos (Qden (Qred param))) 1 && qltb 0 param
+           then Some (normalize1 (spec_matern (Z.to_nat (Qnum (Qred param))) scale n)) else None
+  | _ => None
+  end.
+(* CovLinearSph.cpp:44  1 - 2 alpha / GV_PI *)
+Definition cor_linearsph (alpha : Q) : Q := 1 - 2 * alpha / gv_pi.
 Definition qi_add (a b : qi) : qi := (fst a + fst b, snd a + snd b).
 Definition qi_sub (a b : qi) : qi := (fst a - snd b, snd a - fst b).
 Definition qi_scale (c : Q) (a : qi) : qi :=
@@ -137,9 +196,10 @@ Definition cor_exact (type : Z) (param : Q) (ndim : Z) (field cov0 : Q) (h : Q) 
    Polynomial structures: hull of the values at both ends (equal when exact; otherwise the two values differ
    by less than Lipschitz * 2^-100).  Transcendental structures: rigorous interval evaluation (IEval.v). *)
 Definition cor_enc (type : Z) (param : Q) (ndim : Z) (field cov0 : Q) (hlo hhi : Q) : option qi :=
+  if Z.eqb type 6 then (if qeqb hlo hhi then bessel_enc param (hlo * hlo) else None) else
   match cor_exact type param ndim field cov0 hlo, cor_exact type param ndim field cov0 hhi with
   | Some a, Some b => Some (qi_hull2 a b)
-  | _, _ => cor_trans type param hlo hhi
+  | _, _ => cor_trans type param ndim field hlo hhi
   end.
 
 (* ------------------------------------------------------------------ one anisotropic basic structure *)
@@ -204,6 +264,7 @@ Definition COVWGT (o : Z) : list Q :=
   end.
 
 Definition cor_at (c : cova) (ndim : Z) (h2 : Q) : option qi :=
+  if Z.eqb (cv_type c) 6 then bessel_enc (cv_param c) h2 else
   let b := sqrt_bracket h2 in
   cor_enc (cv_type c) (cv_param c) ndim (cv_field c) (cv_cov0 c) (fst b) (snd b).
 
